@@ -515,11 +515,18 @@ func (c *Conn) ResetPollerEvent() {
 	p := c.p
 	g := p.g
 	fd := c.fd
-	if g.isOneshot && !c.closed {
-		if len(c.writeList) == 0 {
-			_ = p.resetRead(fd)
-		} else {
-			_ = p.modWrite(fd)
+	if g.isOneshot {
+		// decide under the connection mutex: a concurrent Write that queues
+		// data and arms the write event must not be overridden by a stale
+		// read-only registration.
+		c.mux.Lock()
+		if !c.closed {
+			if len(c.writeList) == 0 {
+				_ = p.resetRead(fd)
+			} else {
+				_ = p.modWrite(fd)
+			}
 		}
+		c.mux.Unlock()
 	}
 }
